@@ -354,3 +354,29 @@ def exists_form(t):
         if e[4] == ('elem', e[2], 0):
             return e[2], norm_pc(tuple(e[3]))
     return None
+
+
+def exists_atom(t, pol=True):
+    """(sequence, conditions) when the path-condition atom (t, pol) says "some element of the sequence satisfies the conditions", in any
+    of the spellings  `v in (f(x) for x in S if C)`,  `any(f(x) == v for x in S if C)`,  `not all(f(x) != v for x in S if C)`,  a non-empty
+    filter; else None.  Ids stripped."""
+    from .sval import strip_ids, norm_pc
+    t = strip_ids(t)
+    if t[0] == 'not':
+        return exists_atom(t[1], not pol)
+
+    def each_of(g):
+        if g[0] in ('list', 'tuple', 'set') and len(g[1]) == 1 and isinstance(g[1][0], tuple) and g[1][0][0] == 'each':
+            return g[1][0]
+        return None
+    if pol and t[0] == 'cmp' and t[1] == 'in':
+        e = each_of(t[3])
+        if e is not None:
+            return e[2], norm_pc(tuple(e[3]) + ((('cmp', '==') + tuple(sorted((e[4], t[2]), key=repr)), True),))
+    if not pol and is_call(t, 'builtins.all') and len(t[3]) == 1:
+        e = each_of(t[3][0][1])
+        if e is not None:
+            return e[2], norm_pc(tuple(e[3]) + ((e[4], False),))
+    if pol:
+        return exists_form(t)
+    return None
